@@ -242,6 +242,7 @@ package db
 //@ func (*DB).Info(db, caller, name) (info, err)
 //@   requires dbInv(db)
 //@   ensures [C02,C03,C14 info.inv] dbInv(db)
+//@   ensures [C14 info.one-critical-section] lockOps <= old(lockOps) + 1
 //@   ensures [C01,C02 info.noeffect] noEffect(db)
 //@   ensures [C01 info.deny] !allows(caller.Permissions, "info", name) ==> (info == nil && errIs(err, ErrAccessDenied))
 //@   ensures [C01,C06 info.deny-exact] (!allows(caller.Permissions, "info", name) && auditLog != old(auditLog)) ==> auditLog == snoc(old(auditLog), evC(caller, "info", name, 0, false))
@@ -254,6 +255,7 @@ package db
 //@ func (*DB).Get(db, caller, name) (sv, err)
 //@   requires dbInv(db)
 //@   ensures [C02,C03,C14 get.inv] dbInv(db)
+//@   ensures [C14 get.one-critical-section] lockOps <= old(lockOps) + 1
 //@   ensures [C01,C02 get.noeffect] noEffect(db)
 //@   ensures [C01 get.deny] !allows(caller.Permissions, "get", name) ==> (sv == nil && errIs(err, ErrAccessDenied))
 //@   ensures [C01,C06 get.deny-exact] (!allows(caller.Permissions, "get", name) && auditLog != old(auditLog)) ==> auditLog == snoc(old(auditLog), evC(caller, "get", name, 0, false))
@@ -268,6 +270,7 @@ package db
 //@ func (*DB).GetVersion(db, caller, name, version) (sv, err)
 //@   requires dbInv(db)
 //@   ensures [C02,C03,C14 getversion.inv] dbInv(db)
+//@   ensures [C14 getversion.one-critical-section] lockOps <= old(lockOps) + 1
 //@   ensures [C01,C02 getversion.noeffect] noEffect(db)
 //@   ensures [C01 getversion.deny] !allows(caller.Permissions, "get", name) ==> (sv == nil && errIs(err, ErrAccessDenied))
 //@   ensures [C01,C06 getversion.deny-exact] (!allows(caller.Permissions, "get", name) && auditLog != old(auditLog)) ==> auditLog == snoc(old(auditLog), evC(caller, "get", name, version, false))
@@ -282,6 +285,7 @@ package db
 //@ func (*DB).GetConditional(db, caller, name, oldVersion) (sv, err)
 //@   requires dbInv(db)
 //@   ensures [C02,C03,C14 getcond.inv] dbInv(db)
+//@   ensures [C14 getcond.one-critical-section] lockOps <= old(lockOps) + 1
 //@   ensures [C01,C02 getcond.noeffect] noEffect(db)
 //@   ensures [C01 getcond.deny] !allows(caller.Permissions, "get", name) ==> (sv == nil && errIs(err, ErrAccessDenied) && !errIs(err, api.ErrValueNotChanged) && !errIs(err, ErrNotFound))
 //@   ensures [C01,C06 getcond.deny-exact] (!allows(caller.Permissions, "get", name) && auditLog != old(auditLog)) ==> auditLog == snoc(old(auditLog), evC(caller, "get", name, 0, false))
@@ -298,6 +302,7 @@ package db
 //@ func (*DB).Put(db, caller, name, value) (ver, err)
 //@   requires dbInv(db) && counterRoom(db, name)
 //@   ensures [C02,C03,C04,C14 put.inv] dbInv(db)
+//@   ensures [C14 put.one-critical-section] lockOps <= old(lockOps) + 1
 //@   ensures [C01 put.noeffect-without-grant] !allows(caller.Permissions, "put", name) ==> (ver == 0 && err != nil && noEffect(db))
 //@   ensures [C01 put.deny] (!allows(caller.Permissions, "put", name) && name != "") ==> errIs(err, ErrAccessDenied)
 //@   ensures [C01,C06 put.deny-exact] (!allows(caller.Permissions, "put", name) && auditLog != old(auditLog)) ==> auditLog == snoc(old(auditLog), evC(caller, "put", name, 0, false))
@@ -318,6 +323,7 @@ package db
 //@ func (*DB).Activate(db, caller, name, version) (err)
 //@   requires dbInv(db)
 //@   ensures [C02,C03,C04,C14 activate.inv] dbInv(db)
+//@   ensures [C14 activate.one-critical-section] lockOps <= old(lockOps) + 1
 //@   ensures [C01 activate.noeffect-without-grant] !allows(caller.Permissions, "activate", name) ==> (err != nil && noEffect(db))
 //@   ensures [C01 activate.deny] (!allows(caller.Permissions, "activate", name) && name != "") ==> errIs(err, ErrAccessDenied)
 //@   ensures [C01,C06 activate.deny-exact] (!allows(caller.Permissions, "activate", name) && auditLog != old(auditLog)) ==> auditLog == snoc(old(auditLog), evC(caller, "activate", name, version, false))
@@ -338,6 +344,7 @@ package db
 //@ func (*DB).DeleteVersion(db, caller, name, version) (err)
 //@   requires dbInv(db)
 //@   ensures [C02,C03,C04,C14 deleteversion.inv] dbInv(db)
+//@   ensures [C14 deleteversion.one-critical-section] lockOps <= old(lockOps) + 1
 //@   ensures [C01 deleteversion.deny] !allows(caller.Permissions, "delete", name) ==> (errIs(err, ErrAccessDenied) && noEffect(db))
 //@   ensures [C01,C06 deleteversion.deny-exact] (!allows(caller.Permissions, "delete", name) && auditLog != old(auditLog)) ==> auditLog == snoc(old(auditLog), evC(caller, "delete", name, version, false))
 //@   ensures [C06 deleteversion.trail] auditLog == old(auditLog) || auditLog == snoc(old(auditLog), evC(caller, "delete", name, version, allows(caller.Permissions, "delete", name)))
@@ -358,6 +365,7 @@ package db
 //@ func (*DB).Delete(db, caller, name) (err)
 //@   requires dbInv(db)
 //@   ensures [C02,C03,C04,C14 delete.inv] dbInv(db)
+//@   ensures [C14 delete.one-critical-section] lockOps <= old(lockOps) + 1
 //@   ensures [C01 delete.deny] !allows(caller.Permissions, "delete", name) ==> (errIs(err, ErrAccessDenied) && noEffect(db))
 //@   ensures [C01,C06 delete.deny-exact] (!allows(caller.Permissions, "delete", name) && auditLog != old(auditLog)) ==> auditLog == snoc(old(auditLog), evC(caller, "delete", name, 0, false))
 //@   ensures [C06 delete.trail] auditLog == old(auditLog) || auditLog == snoc(old(auditLog), evC(caller, "delete", name, 0, allows(caller.Permissions, "delete", name)))
@@ -375,6 +383,7 @@ package db
 //@ func (*DB).List(db, caller) (ret, err)
 //@   requires dbInv(db)
 //@   ensures [C02,C03,C14 list.inv] dbInv(db)
+//@   ensures [C14 list.one-critical-section] lockOps <= old(lockOps) + 1
 //@   ensures [C01,C02 list.noeffect] noEffect(db)
 //@   ensures [C06 list.trail] auditLog == old(auditLog) || auditLog == snoc(old(auditLog), evC(caller, "info", "", 0, true))
 //@   ensures [C06 list.logged] err == nil ==> auditLog == snoc(old(auditLog), evC(caller, "info", "", 0, true))
